@@ -384,6 +384,10 @@ class PTFR(object):
             ch7_logger.debug(
                 "No remainder from previous packet, offset={} buffer length={}".format(self.ptdp_offset, len(buf))
             )
+        elif remainder is None and self.ptdp_offset == 0x7FF:
+            # Joined in the middle of a PTDP and no PTDP begins in this frame: there is nothing to align on yet
+            buf = bytes()
+            ch7_logger.debug("No PTDP begins in this frame and the remainder is undefined. Skipping the frame")
         elif remainder is None:
             buf = self.payload
             ch7_logger.debug(
